@@ -1943,6 +1943,142 @@ def cursor_loops(ck, prog):
     lib.cursor_loops_advance(prog, r, files, floor=1)
 
 
+# ---------------------------------------------------------------------------
+# declaration-level rules: flag constants and bit-field capacity
+
+# reviewed overlapping mask names: frozenset({a, b}) -> reason
+FLAGBITS_REVIEWED = {
+}
+
+
+def _unparen(e):
+    while isinstance(e, dict) and e.get('k') in ('paren', 'cast') and isinstance(e.get('e'), dict):
+        e = e['e']
+    return e
+
+
+def flag_bits(ck, prog):
+    """Named constants that are tested against / set in the same word within one function select
+    disjoint bits."""
+    from .cfg import estr
+    pid = ck.pid
+    r = ck.rule(pid + '.D', 'named flag constants applied with & | &= |= to the same word inside one function of '
+                'this property\'s files are distinct non-zero bits where they are single-bit constants (two flag names never share a '
+                'bit, no flag is 0; multi-bit field masks are left alone)', 'TAB',
+                breaks='two flags given the same bit (an enumerator renumbered, a copy-pasted `1 << k`) make the '
+                       'test for one succeed when only the other is set: e.g. a path_namespace match rule is '
+                       'matched as an exact path', floor=1)
+    n = 0
+    for f in prog.funcs.values():
+        if not in_scope(prog, pid, f):
+            continue
+        groups = {}
+        tops = []
+        for b, i, ev in f.events():
+            e = ev.get('init') if ev['ev'] == 'decl' else ev.get('e')
+            if isinstance(e, dict):
+                tops.append((e, ev['line']))
+        for blk in f.blocks.values():
+            t = blk.get('term')
+            if t and t.get('cond') is not None:
+                tops.append((t['cond'], t['line']))
+        for top, line in tops:
+            for x in walk(top):
+                if x.get('k') not in ('bin', 'assign') or x.get('op') not in ('&', '|', '&=', '|='):
+                    continue
+                for a, b2 in ((x.get('l'), x.get('r')), (x.get('r'), x.get('l'))):
+                    a, b2 = _unparen(a), _unparen(b2)
+                    if isinstance(b2, dict) and b2.get('k') == 'un' and b2.get('op') == '~':
+                        b2 = _unparen(b2.get('e'))
+                    if not (isinstance(a, dict) and isinstance(b2, dict)):
+                        continue
+                    if b2.get('k') == 'int' and b2.get('name') and a.get('k') in ('ref', 'member'):
+                        groups.setdefault(estr(a), {}).setdefault(b2['name'], (b2['v'], line))
+        for word, names in groups.items():
+            # flags are single bits; multi-bit constants are field masks (e.g. the wait-status macros) and are
+            # not compared here
+            items = sorted((nm, vl) for nm, vl in names.items() if vl[0] & (vl[0] - 1) == 0)
+            if len(items) < 2:
+                continue
+            for nm, (v, line) in items:
+                n += 1
+                key = '%s:%s:%s' % (f.name, word, nm)
+                if v == 0:
+                    r.violation(key, f.name, f.file, line, 'the flag %s applied to %s is 0: it selects no bit' % (nm, word))
+                    continue
+                clash = [o for o, (ov, _) in items if o != nm and (ov & v)
+                         and frozenset((o, nm)) not in FLAGBITS_REVIEWED]
+                if clash:
+                    r.violation(key, f.name, f.file, line,
+                                'the flags %s (0x%x) and %s applied to %s share a bit: testing one succeeds when '
+                                'only the other is set' % (nm, v, ', '.join(clash), word))
+                else:
+                    r.ok(key)
+    if n == 0:
+        r.skip('no named flag constant is applied to a word in the files of this property')
+
+
+def bitfield_capacity(ck, prog):
+    """A constant stored into or compared with an unsigned bit-field fits the field."""
+    from .cfg import estr
+    pid = ck.pid
+    r = ck.rule(pid + '.Q', 'every integer constant that is stored into, or compared with, a bit-field in this '
+                'property\'s files fits the declared width of the field', 'TAB',
+                breaks='a bit-field narrowed below the largest value it has to hold (a tristate kept in 1 bit) '
+                       'truncates the stored constant: the value read back is a different enumerator, and a '
+                       'comparison with the lost value is never true', floor=1)
+    width = {}
+
+    def collect(rec):
+        for fl in rec['fields']:
+            if fl.get('bits'):
+                width[(rec['name'], fl['name'])] = fl['bits']
+            if isinstance(fl.get('anon'), dict):       # unnamed struct / union nested in the record
+                collect(fl['anon'])
+    for rn, rec in prog.records.items():
+        collect(dict(rec, name=rec.get('name', rn)))
+    n = 0
+    for f in prog.funcs.values():
+        if not in_scope(prog, pid, f):
+            continue
+        tops = []
+        for b, i, ev in f.events():
+            e = ev.get('init') if ev['ev'] == 'decl' else ev.get('e')
+            if isinstance(e, dict):
+                tops.append((e, ev['line']))
+        for blk in f.blocks.values():
+            t = blk.get('term')
+            if t and t.get('cond') is not None:
+                tops.append((t['cond'], t['line']))
+        seen = set()
+        for top, line in tops:
+            for x in walk(top):
+                if x.get('k') not in ('bin', 'assign') or x.get('op') not in ('=', '==', '!='):
+                    continue
+                for a, c in ((x.get('l'), x.get('r')), (x.get('r'), x.get('l'))):
+                    a, c = _unparen(a), _unparen(c)
+                    if not (isinstance(a, dict) and isinstance(c, dict)):
+                        continue
+                    if a.get('k') != 'member' or (a.get('rec'), a.get('field')) not in width or c.get('k') != 'int':
+                        continue
+                    if x.get('op') == '=' and a is not _unparen(x.get('l')):
+                        continue
+                    w = width[(a['rec'], a['field'])]
+                    key = '%s:%s%s%s' % (f.name, estr(a), x['op'], c.get('name') or c['v'])
+                    if key in seen:
+                        continue
+                    seen.add(key)
+                    n += 1
+                    if 0 <= c['v'] < (1 << w):
+                        r.ok(key)
+                    else:
+                        r.violation(key, f.name, f.file, line,
+                                    '%s is a %d-bit field and cannot hold %s (%d): the value is truncated / the '
+                                    'comparison is never true' % (estr(a), w, c.get('name') or 'the constant', c['v']))
+    if n == 0:
+        r.skip('no constant is stored into or compared with a bit-field in the files of this property')
+
+
 def run(ck, prog):
     error_discipline(ck, prog)
     onebit_stores(ck, prog)
@@ -1962,3 +2098,5 @@ def run(ck, prog):
     accessors(ck, prog)
     fresh_reads(ck, prog)
     cursor_loops(ck, prog)
+    flag_bits(ck, prog)
+    bitfield_capacity(ck, prog)
